@@ -2,6 +2,7 @@ package main
 
 import (
 	"fmt"
+	"go/constant"
 	"go/token"
 	"go/types"
 
@@ -86,6 +87,15 @@ func (f *frame) libCall(callee *ssa.Function, c *ssa.CallCommon, base string, re
 		used("Float64frombits returns the floating-point number corresponding to the IEEE 754 binary representation b")
 		return ret(fmt.Sprintf("((_ to_fp 11 53) %s)", arg(0)))
 	case "math.Mod":
+		if c, ok := c.Args[1].(*ssa.Const); ok && c.Value != nil {
+			if y, _ := constant.Float64Val(c.Value); y >= 1 && y <= 1<<62 && float64(int64(y)) == y && int64(y)&(int64(y)-1) == 0 {
+				used("Mod(x, 2^k) = x - 2^k*trunc(x/2^k) (C fmod; every step is exact in binary floating point), sign of x; NaN for x = ±Inf or NaN")
+				x := arg(0)
+				yl := fpLit(y, "Float64")
+				r := fmt.Sprintf("(fp.sub RNE %s (fp.mul RNE (fp.roundToIntegral RTZ (fp.div RNE %s %s)) %s))", x, x, yl, yl)
+				return ret(fmt.Sprintf("(ite (or (fp.isNaN %s) (fp.isInfinite %s)) (_ NaN 11 53) (ite (fp.isZero %s) (ite (fp.isNegative %s) (_ -zero 11 53) (_ +zero 11 53)) %s))", x, x, r, x, r))
+			}
+		}
 		used("Mod returns the floating-point remainder of x/y (C fmod): fp.rem is NOT fmod, so only the documented special cases are assumed: NaN if x is Inf/NaN or y is 0/NaN; x if y is Inf and x finite; magnitude < |y|, sign of x")
 		x, y := arg(0), arg(1)
 		r := f.resultHavoc(base, f64)
